@@ -260,6 +260,23 @@ func (c *Client) validateVirtualChannelFundingProposal(
 		return errors.New("cannot have locked funds")
 	}
 
+	// Validate dimensions before indexing participants, balances and index maps.
+	numParts := len(prop.Initial.Params.Parts)
+	if len(prop.Initial.Sigs) != numParts {
+		return errors.Errorf("expected %d signatures, got %d", numParts, len(prop.Initial.Sigs))
+	}
+	if err := prop.Initial.State.Valid(); err != nil {
+		return errors.WithMessage(err, "invalid initial state")
+	}
+	if prop.Initial.State.NumParts() != numParts {
+		return errors.Errorf("expected balances for %d participants, got %d", numParts, prop.Initial.State.NumParts())
+	}
+	for i, p := range prop.IndexMap {
+		if int(p) >= ch.state().NumParts() {
+			return errors.Errorf("index map: invalid entry %d: %d", i, p)
+		}
+	}
+
 	// Validate signatures.
 	for i, sig := range prop.Initial.Sigs {
 		for _, part := range prop.Initial.Params.Parts[i] {
